@@ -37,7 +37,7 @@ CLAIMED = {
          "Tree structure, literal values, associativity and layout/comment invariance depend on the ANTLR parse and are OUTSIDE the solver verdict; they are covered as a by-product by running the real parser on 26 generated scripts (expected tree built alongside the text) in 4-8 layouts each, one of them with block comments glued between all tokens. Known finding: a comment glued to an asset / number / ratio token changes the parse."),
  "C16": ("§6 C16", "analysis.CheckProgram executed in the VM on parser-produced trees: 27 statically valid templates (incl. negative and zero literals wherever a number or an amount may stand) get no error (literal portion numerators symbolic: accepted exactly when they sum to one); for name templates every declaration and every use takes every name of a pool (all deletions, duplications, renamings): unbound / duplicate / unused variables are reported exactly once at their token and nothing else is (a variable mentioned only before its declaration counts as unused).",
          "Template lists are finite; names and types are finite choices concretised by forking; numerators are unbounded. 20 two-step sequences check that a valid script gets the same diagnostics after another text was analysed in the same process."),
- "C17": ("§6 C17", "CheckProgram then RunProgram inside one symbolic path for valid templates with up to one (thorough: two) mis-declared variable types over all six types, and 65 type-breaking edits (incl. self-referencing origins, misplaced remaining clauses, defects in sources listed after an unbounded one); whenever the checker reports no error the run (all integers as numbers/amounts, symbolic balances) does not fail with TypeError, UnboundVariable, UnboundFunction, BadArity or InvalidType; with no diagnostics at all, not with a send-all shape error either.",
+ "C17": ("§6 C17", "CheckProgram then RunProgram inside one symbolic path for valid templates with up to two mis-declared variable types over all six types, and 65 type-breaking edits (incl. self-referencing origins, misplaced remaining clauses, defects in sources listed after an unbounded one); whenever the checker reports no error the run (all integers as numbers/amounts, symbolic balances) does not fail with TypeError, UnboundVariable, UnboundFunction, BadArity or InvalidType; with no diagnostics at all, not with a send-all shape error either.",
          "Template lists are finite; non-numeric variable values take one representative each."),
  "C18": ("§6 C18", "SCOPED: on each tree the real parser produces for a text of the edit corpus (prefixes, token deletions/duplications, bracket edits, insertions of tokens and of characters no token can contain, hand-written broken texts) CheckSource, GetSymbols, HoverOn and GotoDefinition run in the VM with the cursor position SYMBOLIC (every line/character) and the checker's map iteration orders symbolic: every reachable panic site is a violation, diagnostics start inside the document and do not end before they start, re-analysis yields the same diagnostics and symbols.",
          "The text dimension is a bounded corpus (text -> partial tree is ANTLR error recovery, outside the encoding); positions and iteration orders are quantified by the solver."),
